@@ -12,6 +12,8 @@ import (
 
 var Checks = map[string]vh.CheckFunc{
 	"C01": C01,
+	"C02": C02,
+	"C03": C03,
 }
 
 type M = map[string]interface{}
